@@ -75,6 +75,8 @@ Definition match_arg (f : frame) (k : ekind) : option nat :=
   | FInvList l, KInvMark n _ _ => if memb n l then Some n else None
   | FStrobe n, KStrobe n' _ => if Nat.eqb n n' then Some 0 else None
   | FRelEnter n, KRelEnter n' => if Nat.eqb n n' then Some 0 else None
+  | FRelEnter n, KInvNoop n' => if Nat.eqb n n' then Some 0 else None
+  | FRelEnter n, KInvMark n' _ _ => if Nat.eqb n n' then Some 0 else None
   | FRelMark n, KRelNoop n' => if Nat.eqb n n' then Some 0 else None
   | FRelMark n, KRelMark n' _ _ => if Nat.eqb n n' then Some 0 else None
   | FCleanup n _, KCleanup n' _ => if Nat.eqb n n' then Some 0 else None
@@ -172,12 +174,23 @@ Fixpoint lookup (b : list (nat * nat)) (g : nat) : option nat :=
 
 Definition bound_tid (b : list (nat * nat)) (t : nat) : bool := existsb (fun p => Nat.eqb (snd p) t) b.
 
+(* a release() goroutine announces itself with release.enter before anything else, so a fresh goroutine whose
+   first event is an invalidate event is not one *)
+Definition match_unbound (f : frame) (k : ekind) : option nat :=
+  match f, k with
+  | FRelEnter _, KInvNoop _ => None
+  | FRelEnter _, KInvMark _ _ _ => None
+  | _, _ => match_arg f k
+  end.
+
+Definition is_rel_enter (k : ekind) : bool := match k with KRelEnter _ => true | _ => false end.
+
 (* first live task not yet bound to a goroutine whose top frame matches k *)
 Fixpoint find_unbound (b : list (nat * nat)) (ts : list (nat * list frame)) (k : ekind) : option nat :=
   match ts with
   | [] => None
   | (t, f :: _) :: r =>
-      if negb (bound_tid b t) && is_some (match_arg f k) then Some t else find_unbound b r k
+      if negb (bound_tid b t) && is_some (match_unbound f k) then Some t else find_unbound b r k
   | _ :: r => find_unbound b r k
   end.
 
@@ -217,6 +230,8 @@ Definition task_event (s : state) (b : list (nat * nat)) (gid : nat) (k : ekind)
           match match_arg f k with
           | None => inr 1
           | Some arg =>
+              if is_rel_enter k then inl (Some (s0, b'))   (* release.enter is not a critical section: it only identifies the goroutine *)
+              else
               if obs_ok s0 f rest k then
                 match step s0 (LTask t arg) with
                 | Some s1 => inl (Some (s1, b'))
